@@ -30,7 +30,7 @@ def hx(s):
     try:
         return s.encode('latin-1').hex()
     except UnicodeEncodeError:       # outside the model's alphabet: never sent to the driver, only kept in observations
-        return s.encode('utf-8').hex()
+        return s.encode('utf-8', 'surrogatepass').hex()
 
 
 def unhx(h):
@@ -95,8 +95,10 @@ def compile_outcome(code):
     """What parse_model's syntax check observes for one generated statement: ok se ce sw ow ox (+ exception class)."""
     import textwrap
     import warnings
-    # 1847a2f: the check compiles the code as build_model embeds it — indented, inside a method body, followed by `pass`
-    wrapped = 'def _evaluate(self, t):\n' + textwrap.indent(code, '    ') + '\n    pass'
+    # 1847a2f / fad09eb: the check compiles the code as build_model embeds it — indented, inside a method body with the
+    # parameters of the real `_evaluate`, followed by `pass`
+    wrapped = ('def _evaluate(self, t, *, errors=None, catch_first_error=None, iteration=None, **kwargs):\n'
+               + textwrap.indent(code, '    ') + '\n    pass')
     with warnings.catch_warnings(record=True) as w:
         warnings.simplefilter('always')
         try:
